@@ -161,3 +161,91 @@ Definition run_root (t : tree) : ptensor :=
   end.
 
 End Prog.
+
+(* =====================  the full interpreter (Contractor.__call__)  =====================
+   temps: node (its leaf list, as in the instruction) -> (shape, positional array).
+   Executes ANY instruction list in the given order, including the tensordot +
+   transpose path; used by the executed correspondence. *)
+Section Exec.
+Variable n : net.
+Variable sl : list slinfo.
+Variable arr : nat -> ptensor.
+Variable e0 : env.
+Notation dim := (dim n).
+
+Definition sarr := (list nat * ptensor)%type.
+Definition temps := list (list nat * sarr).
+
+Fixpoint tget (k : list nat) (tm : temps) : sarr :=
+  match tm with
+  | [] => ([], fun _ => 0)
+  | (k', v) :: tm' => if list_eqb Nat.eqb k' k then v else tget k tm'
+  end.
+Fixpoint tdel (k : list nat) (tm : temps) : temps :=
+  match tm with
+  | [] => []
+  | (k', v) :: tm' => if list_eqb Nat.eqb k' k then tm' else (k', v) :: tdel k tm'
+  end.
+Definition tset (k : list nat) (v : sarr) (tm : temps) : temps := (k, v) :: tdel k tm.
+
+(* iterated sum over all tuples c with c[i] < dims[i] *)
+Fixpoint sum_tuples (dims : list nat) (f : list nat -> Z) : Z :=
+  match dims with
+  | [] => f []
+  | d :: dims' => sumn d (fun v => sum_tuples dims' (fun c => f (v :: c)))
+  end.
+
+(* full position of an operand: axis i takes c[k] when i = axes[k], else the next free value *)
+Fixpoint build_from (i rank : nat) (axes : list nat) (c free : list nat) : list nat :=
+  match rank with
+  | O => []
+  | S rank' =>
+      match find_pos i axes with
+      | Some k => nth k c 0%nat :: build_from (S i) rank' axes c free
+      | None => match free with
+                | v :: free' => v :: build_from (S i) rank' axes c free'
+                | [] => 0%nat :: build_from (S i) rank' axes c []
+                end
+      end
+  end.
+Definition free_shape (shape : list nat) (axes : list nat) : list nat :=
+  map snd (filter (fun iv => negb (memb (fst iv) axes)) (combine (seq 0 (length shape)) shape)).
+
+(* numpy.tensordot(a, b, (la, ra)) *)
+Definition tdot (A B : sarr) (la ra : list nat) : sarr :=
+  let '(sa, fa) := A in let '(sb, fb) := B in
+  let cdims := map (fun i => nth i sa 0%nat) la in
+  let nfa := (length sa - length la)%nat in
+  (free_shape sa la ++ free_shape sb ra,
+   fun pos => sum_tuples cdims (fun c =>
+      fa (build_from 0 (length sa) la c (firstn nfa pos)) *
+      fb (build_from 0 (length sb) ra c (skipn nfa pos)))).
+
+(* numpy.transpose(a, perm): result axis k is source axis perm[k] *)
+Definition transpose (A : sarr) (perm : list nat) : sarr :=
+  let '(sa, fa) := A in
+  (map (fun i => nth i sa 0%nat) perm,
+   fun pos => fa (map (fun i => match find_pos i perm with Some k => nth k pos 0%nat | None => 0%nat end)
+                      (seq 0 (length sa)))).
+
+Definition exec_instr (tm : temps) (i : instr) : temps :=
+  match i with
+  | IPre k term kept =>
+      let A := tget [k] tm in
+      tset [k] (map dim kept, einsum1 n e0 term kept (snd A)) tm
+  | IEinsum p l r li ri pi =>
+      let L := tget l tm in let R := tget r tm in
+      tset p (map dim pi, einsum2 n e0 li ri pi (snd L) (snd R)) (tdel r (tdel l tm))
+  | ITdot p l r la ra perm =>
+      let L := tget l tm in let R := tget r tm in
+      let X := tdot L R la ra in
+      let X' := match perm with Some pm => transpose X pm | None => X end in
+      tset p X' (tdel r (tdel l tm))
+  end.
+
+Definition init_temps (t : tree) : temps :=
+  map (fun k => ([k], (map dim (term_sl n sl k), sliced_arr n sl arr e0 k))) (leaves t).
+
+Definition exec_program (prog : list instr) (t : tree) : sarr :=
+  tget (leaves t) (fold_left exec_instr prog (init_temps t)).
+End Exec.
